@@ -534,6 +534,13 @@ impl Finalize for KeyF {
     }
 }
 
+/// A payload the harness does not track at all (used by self-contained probes).
+pub struct Plain(pub i32);
+unsafe impl Trace for Plain {
+    fn trace(&self, _: &mut Context<'_>) {}
+}
+impl Finalize for Plain {}
+
 pub fn key_f(sel: i64) -> f64 {
     match sel.rem_euclid(8) {
         0 => 0.0,
